@@ -1061,6 +1061,31 @@ def long_strings(rng):
     return out
 
 
+def plain_class_after_remove(ctx: Ctx) -> None:
+    """A PLAIN class value (no HTML() part) stays plain through remove_class, whatever the type of the
+    name handed to it (str, str subclass, HTML): what is written between the quotes is the
+    attribute-escaped text of the remaining tokens (the deviation recorded for HTML-valued class
+    attributes is not touched: the value here is a plain str)."""
+    from htmltools import HTML as _HTML, Tag as _Tag
+    rng = ctx.rng
+    toks_pool = ["keep", 'a"b', "x'y", "p&q", "<t>", "gone", "go", "é", "gone2"]
+    for _ in range(ctx.budget(300, 3000)):
+        toks = [rng.choice(toks_pool) for _ in range(rng.choice([1, 2, 3, 4]))]
+        name = rng.choice(toks + ["absent"])
+        arg = rng.choice([lambda x: x, _HTML, trees.StrSub])(name)
+        t = _Tag("div", class_=" ".join(toks))
+        r = safe_call(lambda: t.remove_class(arg).get_html_string())
+        left = [x for x in toks if x != name]
+        esc = lambda v: (v.replace("&", "&amp;").replace(">", "&gt;").replace("<", "&lt;").replace('"', "&quot;")  # noqa: E731
+                         .replace("'", "&apos;").replace("\r", "&#13;").replace("\n", "&#10;"))
+        want = "<div></div>" if not left else '<div class="' + esc(" ".join(left)) + '"></div>'
+        ctx.count(("remove_class", tuple(toks), name, type(arg).__name__), True, "plain class value after remove_class")
+        if r != ("ok", want):
+            ctx.violation("after remove_class on a plain class value the attribute text is not the remaining tokens escaped "
+                          "(attribute table) exactly once", {"class": " ".join(toks), "removed": name, "argument_type": type(arg).__name__},
+                          {"impl_output": r, "expected": want})
+
+
 def run(ctx: Ctx) -> None:
     rng = ctx.rng
     ctx.rule = ("(1) html_escape(s, attr=True): every code point below a bound singly (quick 0x3000, thorough all), "
@@ -1077,6 +1102,7 @@ def run(ctx: Ctx) -> None:
                 "Non-trivial = a plain value with a metacharacter is merged with another value; distinct = canonical scenario.")
     ctx.assumptions = ["html.parser / html.unescape are correct reference decoders"]
     ctx.proof()
+    plain_class_after_remove(ctx)
 
     # ---- escape function -------------------------------------------------------------
     strs = [chr(c) for c in range(0, 0x3000) if not 0xD800 <= c <= 0xDFFF]
